@@ -307,6 +307,47 @@ def run_env(cfg, sid, transport, ka, latency, reject, seed):
     return n, vio
 
 
+def job_clamping(j):
+    """The inverter stores another value than the one sent (it clamps to its own limits) and its acknowledgement says
+    so: write_setting() must not report success - whenever it does, the setting has to read back as written."""
+    cfg, sid, transport, seed = j
+    vio = []
+    n = 0
+    probe = make_rig(cfg, transport, fill=lambda a: 0)
+    if probe.call(probe.inv.read_device_info)[0] != 'ok':
+        return 0, []
+    s0 = probe.inv._settings.get(sid)
+    if s0 is None or not in_scope(cfg, s0) or refdec.size_of(s0) > 2:
+        return 0, []
+    t = type(s0).__name__
+    for v in domain(s0, False):
+        for how, fn in (('plus-10', lambda reg, val: val + 10), ('to-5', lambda reg, val: 5 if val != 5 else 6), ('to-0', lambda reg, val: 0 if val else 1)):
+            r = make_rig(cfg, transport, fill=lambda a: ((a * 40503 + seed * 31 + 7) & 0xFFFF) % 60000, T=1, R=0)
+            inv, dev = r.inv, r.dev
+            if r.call(inv.read_device_info)[0] != 'ok':
+                continue
+            dev.stores_instead = fn
+            res = r.call(inv.write_setting, sid, v)
+            n += 1
+            if res[0] != 'ok':
+                continue                       # the failure was reported: nothing is claimed
+            dev.stores_instead = None
+            back = r.call(inv.read_setting, sid)
+            if not (back[0] == 'ok' and (refdec.same(back[1], v) or back[1] == v)) and t not in ('Decimal', 'Voltage', 'Current', 'CurrentS'):
+                vio.append((f'reads-back/{t}/inverter-stored-another-value', f'write_setting({sid!r}, {v}) returned normally although the '
+                            f'acknowledgement echoed another value ({how}); read back {str(back)[:60]}', str(v)))
+    out = {}
+    for key, cause, vs in vio:
+        kk = f"{key}/{cfg['name']}"
+        out.setdefault(kk, []).append(dict(key=kk, clause=key.split('/')[0], replay=dict(part='clamping', cfg=cfg, sid=sid, transport=transport, seed=seed),
+                                           detail=dict(cause=cause, setting=sid, value=vs)))
+    res = []
+    for key, lst in out.items():
+        lst[0]['n'] = len(lst)
+        res.append(lst[0])
+    return n, res
+
+
 def job_overlapping_writes(j):
     """Two write_setting() calls on one object at the same time (same setting: two values, or the same value twice; or a
     write next to a read of the same setting): every call that reports success stands for exactly one write request that
@@ -565,6 +606,12 @@ def run(tier, seed, rep):
                     if transport == 'udp' or tier == 'thorough':
                         for code in (3, 4, 6):
                             ejobs.append((cfg, sid, transport, ka, 0.001, code, seed))
+    ncl = 0
+    cljobs = [(c, sid, tr, seed) for c in settings_configs() if c['family'] != 'ES'
+              for sid in ('grid_export_limit', 'battery_discharge_depth', 'eco_mode_2_switch', 'work_mode', 'shadow_scan_pv1') for tr in ('udp', 'tcp')]
+    for n, res in pmap(job_clamping, cljobs):
+        ncl += n
+        rep.add_many(res)
     now_ = 0
     owjobs = [(c, sid, tr, ka, seed) for c in settings_configs() if c['family'] != 'ES'
               for sid in ('grid_export_limit', 'eco_mode_2', 'battery_discharge_depth', 'eco_mode_2_switch', 'time') for tr in ('udp', 'tcp') for ka in (False, True)]
@@ -591,7 +638,7 @@ def run(tier, seed, rep):
         total += n
         ne += e
         rep.add_many(res)
-    cov = dict(overlapping_write_pairs=now_, writes_after_a_read_that_lost_its_tail=nlt, writes_with_a_neighbour_object=nnb, environment_runs=nenv, api_session_histories=_api['histories'], api_session_states=_api['states'],
+    cov = dict(writes_the_inverter_stored_differently=ncl, overlapping_write_pairs=now_, writes_after_a_read_that_lost_its_tail=nlt, writes_with_a_neighbour_object=nnb, environment_runs=nenv, api_session_histories=_api['histories'], api_session_states=_api['states'],
                states=max(ne, 1), transitions=max(total, 1), executions=total, traces_validated_against_impl=total,
                settings_jobs=len(jobs), distinct_encodings_written=ne, exhaustive=(tier == 'thorough'),
                bound='every setting of ET (eco v1 / v2 / 745 variants), DT (single / three phase) and the register-addressed ES '
@@ -619,6 +666,9 @@ def replay(r):
     cfg['refused'] = tuple(cfg['refused'])
     if 'firmware' in cfg and isinstance(cfg['firmware'], dict):
         cfg['firmware'] = bytes.fromhex(cfg['firmware']['hex'])
+    if r.get('part') == 'clamping':
+        n, res = job_clamping((cfg, r['sid'], r['transport'], r['seed']))
+        return dict(writes=n, violations=[(v['key'], v['detail']['cause']) for v in res])
     if r.get('part') == 'overlapping-writes':
         n, res = job_overlapping_writes((cfg, r['sid'], r['transport'], r['ka'], r['seed']))
         return dict(pairs=n, violations=[(v['key'], v['detail']['cause']) for v in res])
